@@ -25,8 +25,8 @@ RULE = ("A case is a ring description (C26 format: hosts with dc/rack/tokens, ke
         "down, unmarked or not LOCAL.")
 ASSUMPTIONS = [
     "cassandra.policies.randint / shuffle are substituted by functions that are part of the case, identically for the policy under test and its twin",
-    "replicas are judged against spec.placement (Cassandra's algorithm); where Metadata.get_replicas itself deviates (C26 findings) the failure key carries "
-    "the feature metadata-replicas-differ",
+    "replicas are judged against spec.placement (Cassandra's algorithm; with transient replication its FULL replicas, which is what the driver routes to); "
+    "where Metadata.get_replicas itself deviates (C26 findings) the failure key carries the feature metadata-replicas-differ",
     "the order inside R is demanded exactly for SimpleStrategy (ring walk order); for NetworkTopologyStrategy, whose order differs between Cassandra "
     "versions, R must keep the relative order of Metadata.get_replicas",
     "host states are those the cluster produces: Cluster.on_add/on_up notify the policies before Host.set_up() runs (after pool creation)",
